@@ -97,6 +97,33 @@ def c05(A):
                     o.bad("success-without-pubrec", "QoS 2 publish succeeded on PUBCOMP without a preceding PUBREC", f)
             if f["value"] != r.msgId:
                 o.bad("callback-value", "callback value %r, msgId %r" % (f["value"], r.msgId), f)
+    # the acknowledgement a pending exchange is waiting for completes it there and then
+    by_id = {}
+    for r in pub_reqs(A):
+        if r.info["qos"] in (1, 2) and not r.called_at_return and isinstance(r.msgId, int):
+            by_id.setdefault((r.a, r.msgId), []).append(r)
+    for (e, p, c) in acks:
+        if p["t"] not in ("PUBACK", "PUBCOMP") or e.get("raw") or len(e["pkts"]) != 1 or not c.up_at(e["i"]):
+            continue
+        qos = 1 if p["t"] == "PUBACK" else 2
+        for r in by_id.get((c.a, p.get("id")), []):
+            if r.info["qos"] != qos or r.fired_before(e["i"]) or chain_persistent(A, r, c) is not True:
+                continue
+            here = [x for x in r.tx if x["conn"] == c.idx and x["i"] < e["i"]]
+            if not here:
+                continue          # not (re)sent on this connection yet
+            if qos == 2:
+                rec = [x for (x, q, cc) in acks if q["t"] == "PUBREC" and q.get("id") == r.msgId and cc.a == c.a
+                       and r.tx[0]["i"] < x["i"] < e["i"] and cc.up_at(x["i"])]
+                rel = [x for x in c.pkts if x["pkt"] is not None and x["pkt"]["t"] == "PUBREL" and x["pkt"]["id"] == r.msgId
+                       and r.tx[0]["i"] < x["i"] < e["i"]]
+                if not rec or not rel:
+                    continue      # a PUBCOMP out of turn: judged as a no-op below
+            o.dec("final_acks/qos%d" % qos)
+            if not (r.fires and r.fires[0]["step"] == e["step"] and r.fires[0]["ok"]):
+                o.bad("ack-without-success/qos%d" % qos,
+                      "%s for identifier %r delivered while its publish was pending: the Deferred did not succeed in that step (%s)"
+                      % (p["t"], r.msgId, "never fired" if not r.fires else ("fired later" if r.fires[0]["ok"] else "failed with " + str(r.fires[0].get("etype")))), e)
     # duplicate / late / unknown / out-of-order acknowledgements change nothing
     for (sev, evs) in A.steps:
         s = sev["s"]
@@ -416,15 +443,23 @@ def c12(A):
                       "publish made before CONNACK transmitted again by the resumption at CONNACK", re[0])
         if c.clean:
             # (3) carried-over publishes fail with MQTTSessionCleared
+            # (some time between the CONNECT of the clean connection and the end of its CONNACK step:
+            #  the statement does not say when in the handshake)
             sn = A.snaps.get(c.step_connack_ok)
+            i0 = c.i_connect_accepted if c.i_connect_accepted is not None else iack
             for r in earlier:
-                if r.fired_before(iack):
+                if r.fired_before(i0):
                     continue
                 o.dec("carried_into_clean")
-                fs = [f for f in r.fires if f["step"] == c.step_connack_ok]
+                fs = [f for f in r.fires if f["step"] <= c.step_connack_ok]
                 if not fs:
                     o.bad("carryover-not-cleared/%s" % _stage(r, iack),
                           "publish carried over (%s) into a clean-session connection not failed at its CONNACK" % _stage(r, iack), c.step_connack_ok)
+                elif (not fs[0]["ok"]) and c.i_lost is not None and c.i_lost < fs[0]["i"]:
+                    # the application disconnected from an errback of the purge and the transport
+                    # reported the loss at once: this clean-session connection ended before the
+                    # Deferred failed, and C11 lets it fail with the reason of the loss
+                    o.dec("carried_failed_by_loss")
                 elif fs[0]["ok"] or fs[0]["etype"] != "MQTTSessionCleared":
                     o.bad("carryover-wrong-failure/%s" % (fs[0].get("etype") or "success"),
                           "carried-over publish fired with %s instead of MQTTSessionCleared" % (fs[0].get("etype") or "success"), fs[0])
